@@ -64,6 +64,11 @@ SEEDS = {
     "C14c-setup-sigint-erased-by-h5-create": ("C14", "a signal arriving during set-up (before the results file is created) in a run that writes an HDF5 file: the flag is overwritten, the run continues to the end", []),
     "C10c-stored-impedance-is-radiation-impedance": ("C10", "a dynamics impedance with anything besides single-bucket CSR (wall, collimator, file) or more than one bucket: /Impedance stores the radiation impedance, not the one the stored wake was computed with", []),
     "C12c-fp-skipped-when-fptrack-none": ("C12", "--FPTrack 0 (with or without a tracking file) while the Fokker-Planck term is on: the grid's damping/diffusion step is skipped - a tracking option changes the physics", ["C04"]),
+    "C19c-table-not-rebuilt-for-amplitude": ("C19", "amplitude noise without phase noise (or a step whose phase equals the previous one bit for bit): the kick table is only rebuilt when the PHASE changes, the applied amplitude is stale while the record shows the new one", []),
+    "C15c-dynrf-particle-kicked-with-next-step": ("C15", "the dynamic RF kick map (noise or modulation on) and particle tracking: after apply() the map already holds the NEXT step's kick, so the particle is moved by step i+1's field while the grid got step i's", ["C19"]),
+    "C16c-plates-mode-sum-capped": ("C16", "parallel plates with (f/f0)*(gap/R)^1.5 beyond a few thousand (gaps of metres, or very high harmonics): the mode sum is cut at 1000 terms, the impedance falls below free space instead of tending to it", []),
+    "C17c-padded-datasets-sized-by-radiation-field": ("C17", "two or more buckets spaced closely relative to the padding (n_buckets x spacing < padding/2 grid widths, e.g. -H 28000), an impedance and an HDF5 output: the padded datasets are sized from the radiation field, HDF5 reads past the wake field's buffers", ["C10"]),
+    "C18c-formfactor-upper-half-mirrored": ("C18", "wakePotential() and later updateCSR() on the SAME field object with an impedance that is non-zero above half the length (a user table given with its negative-frequency half): the upper half of the shared form-factor buffer holds the mirrored spectrum of the earlier profile", ["C07"]),
     "C10-": ("C10", "", []),
     "C17-": ("C17", "", []),
 }
